@@ -55,6 +55,11 @@ Qed.
 (* geographic -> local -> geographic is exactly geographic -> ECEF -> geographic: the local frame adds no error of its own *)
 Theorem geo_enu_geo base g : enu_to_geo base (geo_to_enu base g) = ecef_to_geo_deg (geo_to_ecef_deg g).
 Proof. unfold enu_to_geo, geo_to_enu. rewrite enu_then_ecef. reflexivity. Qed.
+(* ENUCoords.toENUCoords(base1, base2): re-basing a local position; exact: the result is the local position of the same point about base2 *)
+Definition enu_rebase (base1 base2 p : R * R * R) : R * R * R := ecef_to_enu_base base2 (enu_to_ecef_base base1 p).
+Theorem rebase_exact base1 base2 g : enu_rebase base1 base2 (geo_to_enu base1 g) = geo_to_enu base2 g.
+Proof. unfold enu_rebase, geo_to_enu. rewrite enu_then_ecef. reflexivity. Qed.
+
 Theorem base_origin base : geo_to_enu base base = (0, 0, 0).
 Proof.
   unfold geo_to_enu, ecef_to_enu_base. destruct (ecef_to_geo_deg (geo_to_ecef_deg base)) as [[blon blat] bh].
